@@ -11,10 +11,11 @@ Record snap := mkSnap {
   sn_kap : Z; sn_cfgIdle : Z; sn_hsIdle : Z; sn_hsTimeout : Z;
   sn_creation : Z; sn_lastRecv : Z; sn_firstAE : Z; sn_kaSent : bool;
   sn_blocked : Z; sn_pacing : Z; sn_pto : Z; sn_ack : Z; sn_loss : Z;
-  sn_retire : Z }.   (* connIDGenerator.NextRetireTime(), 0 = nothing waits *)
+  sn_retire : Z;     (* connIDGenerator.NextRetireTime(), 0 = nothing waits *)
+  sn_ownAdv : Z }.   (* Conn.advertisedIdleTimeout (0 where the field does not exist / nothing advertised) *)
 
 Definition st_of (s : snap) : st :=
-  {| cf := {| c_client := sn_client s; c_keepAlivePeriod := sn_kap s; c_maxIdleTimeout := sn_cfgIdle s; c_hsIdleTimeout := sn_hsIdle s |};
+  {| cf := {| c_client := sn_client s; c_keepAlivePeriod := sn_kap s; c_maxIdleTimeout := sn_cfgIdle s; c_hsIdleTimeout := sn_hsIdle s; c_ownAdvIdle := sn_ownAdv s |};
      hsComplete := sn_hs s; idleTimeout := sn_idle s; kaInterval := sn_kai s; creation := sn_creation s;
      lastRecv := sn_lastRecv s; firstAE := sn_firstAE s; kaSent := sn_kaSent s; blocked := sn_blocked s;
      pacing := sn_pacing s; sentFirst := true; closeErr := None |}.
@@ -64,7 +65,7 @@ Fixpoint replay (s : st) (ops : list op) : option st :=
 Inductive case :=
 | SnapCase (s : snap) (implIdleStart implNextIdle implNextKA : Z) (timer : option Z)
 | WakeCase (s : snap) (now : Z) (obs : Z)   (* 0 continue, 1 keep-alive PING, 2 handshake timeout, 3 idle timeout *)
-| ParamsCase (cfgIdle peerIdle peerAdv kap obsIdle obsKai : Z)
+| ParamsCase (cfgIdle peerIdle peerAdv ownAdv kap obsIdle obsKai : Z)
 | CloseCase (client sentFirstPacket : bool) (reqs : list (Z * Z * bool))
             (obsCause obsApi : Z * Z) (sentClose blackhole : bool) (peer : option (Z * Z)) (routing : Z)
 | RaceCase (client sentFirstPacket : bool) (reqs : list (Z * Z * bool))
@@ -118,7 +119,7 @@ Definition is_block (r : res) : bool := match r with RBlock => true | _ => false
 Definition decision_code (d : decision) : Z :=
   match d with DContinue => 0 | DKeepAlive => 1 | DHandshakeTimeout => 2 | DIdleTimeout => 3 end.
 
-Definition dummy_cfg : cfg := {| c_client := true; c_keepAlivePeriod := 0; c_maxIdleTimeout := 0; c_hsIdleTimeout := 0 |}.
+Definition dummy_cfg : cfg := {| c_client := true; c_keepAlivePeriod := 0; c_maxIdleTimeout := 0; c_hsIdleTimeout := 0; c_ownAdvIdle := 0 |}.
 
 Definition model_obs (c : case) : obs :=
   match c with
@@ -127,8 +128,8 @@ Definition model_obs (c : case) : obs :=
     SnapObs (hsTimeout (cf m)) (idleStart m) (nextIdle m (sn_pto s)) (nextKA m (sn_pto s))
             (maybeResetTimer m (sn_pto s) (sn_retire s) (sn_ack s) (sn_loss s))
   | WakeCase s now _ => WakeObs (decision_code (decide (st_of s) now (sn_pto s)))
-  | ParamsCase cfgIdle peerIdle peerAdv kap _ _ =>
-    let m := applyTP (init {| c_client := true; c_keepAlivePeriod := kap; c_maxIdleTimeout := cfgIdle; c_hsIdleTimeout := 0 |} 1) peerIdle peerAdv in
+  | ParamsCase cfgIdle peerIdle peerAdv ownAdv kap _ _ =>
+    let m := applyTP (init {| c_client := true; c_keepAlivePeriod := kap; c_maxIdleTimeout := cfgIdle; c_hsIdleTimeout := 0; c_ownAdvIdle := ownAdv |} 1) peerIdle peerAdv in
     ParamsObs (idleTimeout m) (kaInterval m)
   | CloseCase client sentFirstPacket reqs _ _ _ _ _ _ =>
     let s := fold_left (fun s (q : Z * Z * bool) => let '(k, c, imm) := q in
@@ -206,7 +207,7 @@ Definition check_case (c0 : case) : bool :=
     (sn_hsTimeout s =? ht) && (is =? is') && (ni =? ni') && (nk =? nk') &&
     match timer with Some t => t =? d | None => true end
   | WakeCase _ _ o, WakeObs d => o =? d
-  | ParamsCase _ peerIdle peerAdv _ oi ok, ParamsObs i k =>
+  | ParamsCase _ peerIdle peerAdv _ _ oi ok, ParamsObs i k =>
     (oi =? i) && (ok =? k) &&
     (* the parser: what the peer advertised, raised to MinRemoteIdleTimeout *)
     (if 0 <? peerAdv then peerIdle =? parse_idle peerAdv else true)
